@@ -47,7 +47,7 @@ class _Helper(object):
         for n in ast.walk(node):
             if n is node:
                 continue
-            if isinstance(n, (ast.FunctionDef, ast.AsyncFunctionDef, ast.Lambda, ast.ClassDef, ast.Yield, ast.YieldFrom, ast.Global, ast.Nonlocal)):
+            if isinstance(n, (ast.FunctionDef, ast.AsyncFunctionDef, ast.ClassDef, ast.Yield, ast.YieldFrom, ast.Global, ast.Nonlocal)):
                 self.ok = False
             if isinstance(n, ast.Call) and ((isinstance(n.func, ast.Attribute) and n.func.attr == node.name) or
                                             (isinstance(n.func, ast.Name) and n.func.id == node.name)):
